@@ -24,6 +24,9 @@ STRENGTHENED = {
     "C08-r2-m3": "a panic of `size_hint()` after an overshooting `nth`: reported by C11 since panics are verdicts there",
     "C04-r2-m1": "catalogue extended before the first run: custom fonts with `character_spacing > 0`",
     "C04-r2-m2": "catalogue extended before the first run: dotted strokes",
+    "C07-r2-m1": "missed at first: no dotted rectangle with round dots met a far offset (> 2²⁴); class added",
+    "C07-r2-m2": "domain extended before the first run: nearly parallel joints at negative coordinates",
+    "C07-r2-m3": "domain extended before the first run: offsets far from BOTH axes (this also exposed the genuine defect D21)",
     "C17-m1": "domain extended before the first run: long wide lines beyond w·len = 23 170 (the old overflow bound of the library)",
 }
 rows = []
